@@ -378,10 +378,9 @@ func validateOneParam(v r.Element, typeStr string) error {
 
 	// if typeStr starts with "govalue" then check if v is *GoValue and tag is equal "<tag>" after "golang:"
 	if strings.HasPrefix(typeStr, "golang:") {
-		if _, ok := v.(*GoValue); !ok {
+		if gv, ok := v.(*GoValue); !ok {
 			valid = false
-		}
-		if v.(*GoValue).GetTag() != strings.TrimPrefix(typeStr, "golang:") {
+		} else if gv.GetTag() != strings.TrimPrefix(typeStr, "golang:") {
 			valid = false
 		}
 	}
